@@ -155,7 +155,12 @@ namespace sim
 
 		int const port = host_end == std::string::npos || host_end <= 7 ? 80
 			: atoi(req.req.substr(host_end + 1, path_start).c_str());
-		assert(port >= 0 && port < 0xffff);
+		if (port < 0 || port > 0xffff)
+		{
+			std::printf("http_proxy::forward_request: invalid port in request: %s\n"
+				, req.req.c_str());
+			throw std::runtime_error("invalid port");
+		}
 
 		bool found_host = false;
 		for (auto const& h : req.headers)
